@@ -1,5 +1,172 @@
-//! (stub)
+//! C09 — the common-substring pre-filter is exact.
+
 use crate::common::*;
-use serde_json::Value;
-pub fn replay(_c: &Value) -> Result<(), String> { Err("not implemented".into()) }
-pub fn run(_ctx: &Ctx) -> Report { Report::new("model_checking") }
+use crate::corpus::all_strings;
+use serde_json::{json, Value};
+use ssdeep::internal_comparison::{BlockHashPositionArray, BlockHashPositionArrayImpl};
+use ssdeep::{FuzzyHashCompareTarget, LongFuzzyHash};
+
+fn pa_of(a: &[u8]) -> Result<BlockHashPositionArray, String> {
+    let mut pa = BlockHashPositionArray::new();
+    guarded(|| pa.init_from(a))?;
+    Ok(pa)
+}
+
+fn via_pa(pa: &BlockHashPositionArray, a: &[u8], b: &[u8]) -> Result<bool, String> {
+    let exp = refmodel::has_common_7gram(a, b);
+    let got = guarded(|| pa.has_common_substring(b))?;
+    if got != exp {
+        return Err(format!("has_common_substring = {} but the naive scan says {}", got, exp));
+    }
+    Ok(got)
+}
+
+/// One ordered pair through every route (position array; comparison target's
+/// block hash accessors; the candidate test at equal block sizes).
+pub fn check_pair(a: &[u8], b: &[u8]) -> Result<bool, String> {
+    let pa = pa_of(a)?;
+    let got = via_pa(&pa, a, b)?;
+    if refmodel::is_normalized(a) && refmodel::is_normalized(b) {
+        let ha = guarded(|| LongFuzzyHash::new_from_internals_near_raw(5, a, &[]))?;
+        let hb = guarded(|| LongFuzzyHash::new_from_internals_near_raw(5, b, &[]))?;
+        let t = FuzzyHashCompareTarget::from(&ha);
+        if guarded(|| t.block_hash_1().has_common_substring(b))? != got {
+            return Err("target.block_hash_1().has_common_substring disagrees".into());
+        }
+        if guarded(|| t.is_comparison_candidate(&hb))? != got {
+            return Err("is_comparison_candidate (block hash 1, equal sizes) disagrees".into());
+        }
+        let ha2 = guarded(|| LongFuzzyHash::new_from_internals_near_raw(5, &[], a))?;
+        let hb2 = guarded(|| LongFuzzyHash::new_from_internals_near_raw(5, &[], b))?;
+        let t2 = FuzzyHashCompareTarget::from(&ha2);
+        if guarded(|| t2.block_hash_2().has_common_substring(b))? != got || guarded(|| t2.is_comparison_candidate(&hb2))? != got {
+            return Err("block hash 2 route disagrees".into());
+        }
+        // cross sizes: a.bh2 against b.bh1 (a half the size of b) and the mirror
+        let hb_up = guarded(|| LongFuzzyHash::new_from_internals_near_raw(6, b, &[]))?;
+        if guarded(|| t2.is_comparison_candidate(&hb_up))? != got {
+            return Err("is_comparison_candidate (near-lt: bh2 vs bh1) disagrees".into());
+        }
+        let hb_dn = guarded(|| LongFuzzyHash::new_from_internals_near_raw(4, &[], b))?;
+        if guarded(|| t.is_comparison_candidate(&hb_dn))? != got {
+            return Err("is_comparison_candidate (near-gt: bh1 vs bh2) disagrees".into());
+        }
+    }
+    Ok(got)
+}
+
+pub fn replay(c: &Value) -> Result<(), String> {
+    let a = unhex(c["a"].as_str().ok_or("a")?);
+    let b = unhex(c["b"].as_str().ok_or("b")?);
+    check_pair(&a, &b).map(|_| ())
+}
+fn case(a: &[u8], b: &[u8]) -> Value {
+    json!({"a": hex(a), "b": hex(b)})
+}
+
+fn pairs_section(rep: &mut Report, name: &str, left: &[Vec<u8>], right: &[Vec<u8>], full_stride: usize) {
+    let acc = par_shards(left.len(), |i, acc| {
+        let a = &left[i];
+        let pa = match pa_of(a) {
+            Ok(p) => p,
+            Err(e) => {
+                acc.violation(format!("init_from a={}", hex(a)), e, case(a, &[]));
+                return;
+            }
+        };
+        for (j, b) in right.iter().enumerate() {
+            acc.evaluations += 1;
+            if a.len() >= 7 && b.len() >= 7 {
+                acc.nontrivial += 1;
+            }
+            let r = if full_stride > 0 && (i * 31 + j) % full_stride == 0 { check_pair(a, b) } else { via_pa(&pa, a, b) };
+            match r {
+                Ok(true) => acc.count("answers_true", 1),
+                Ok(false) => acc.count("answers_false", 1),
+                Err(e) => acc.violation(format!("a={} b={}", hex(a), hex(b)), e, case(a, b)),
+            }
+        }
+        if i == left.len() - 1 {
+            acc.sample(case(a, &right[right.len() / 2]));
+        }
+    });
+    acc.into_report(rep, name);
+}
+
+pub fn run(ctx: &Ctx) -> Report {
+    let mut rep = Report::new("model_checking");
+    let thorough = ctx.tier == Tier::Thorough;
+    // B1: all pairs over small alphabets (strings shorter than 7 are trivially "false" and counted as trivial)
+    let a2 = all_strings(&[0, 63], ctx.tier.pick(10, 11));
+    let b2 = all_strings(&[0, 63], ctx.tier.pick(12, 14));
+    pairs_section(&mut rep, "B1_all_pairs_alphabet2", &a2, &b2, 4099);
+    let a3 = all_strings(&[0, 1, 63], ctx.tier.pick(7, 8));
+    let b3 = all_strings(&[0, 1, 63], ctx.tier.pick(8, 9));
+    pairs_section(&mut rep, "B1_all_pairs_alphabet3", &a3, &b3, 4099);
+
+    // B2: a shared window planted at every (offset in a, offset in b), lengths 5..8 (5 and 6 are near-misses)
+    let acc = par_shards(65 * 4, |idx, acc| {
+        let la = idx / 4;
+        let m = 5 + idx % 4;
+        if la < m {
+            return;
+        }
+        // a: run-free ramp over symbols 1..=62; junk in b uses symbols 0 and 63 only
+        let a: Vec<u8> = (0..la).map(|i| (1 + i % 62) as u8).collect();
+        let pa = match pa_of(&a) {
+            Ok(p) => p,
+            Err(_) => return,
+        };
+        for lb in m..=64usize {
+            for oa in 0..=(la - m) {
+                for ob in 0..=(lb - m) {
+                    let mut b: Vec<u8> = (0..lb).map(|i| if i % 2 == 0 { 0 } else { 63 }).collect();
+                    b[ob..ob + m].copy_from_slice(&a[oa..oa + m]);
+                    acc.evaluations += 1;
+                    acc.nontrivial += 1;
+                    let full = (oa + 3 * ob + lb) % 257 == 0;
+                    let r = if full { check_pair(&a, &b) } else { via_pa(&pa, &a, &b) };
+                    match r {
+                        Ok(true) => acc.count("answers_true", 1),
+                        Ok(false) => acc.count("answers_false", 1),
+                        Err(e) => acc.violation(format!("planted m={} la={} lb={} oa={} ob={}", m, la, lb, oa, ob), e, case(&a, &b)),
+                    }
+                    if la == 20 && lb == 20 && oa == 3 && ob == 9 {
+                        acc.sample(json!({"planted_window_len": m, "a": hex(&a), "b": hex(&b)}));
+                    }
+                }
+            }
+        }
+    });
+    acc.into_report(&mut rep, "B2_window_planted_at_every_offset_pair_len_5_to_8");
+
+    // B3: repeated / overlapping occurrences and low-entropy strings
+    let totals: Vec<usize> = if thorough { (0..=64).collect() } else { vec![6, 7, 8, 13, 14, 15, 31, 32, 63, 64] };
+    let mut low: Vec<Vec<u8>> = vec![];
+    for &t in &totals {
+        for i in 0..=t {
+            let mut s = vec![0u8; i];
+            s.extend(vec![63u8; t - i]);
+            low.push(s.clone());
+            let mut r = vec![63u8; i];
+            r.extend(vec![0u8; t - i]);
+            low.push(r);
+        }
+    }
+    for p in 1..=4usize {
+        for pat in all_strings(&[0, 7, 63], p).into_iter().filter(|s| s.len() == p) {
+            for &len in &[7usize, 8, 13, 14, 33, 64] {
+                low.push((0..len).map(|k| pat[k % p]).collect());
+            }
+        }
+    }
+    low.sort();
+    low.dedup();
+    pairs_section(&mut rep, "B3_low_entropy_two_run_and_periodic_all_pairs", &low, &low, 4099);
+    rep.set("exhaustive", true);
+    rep.set(
+        "rule",
+        "B1: ALL ordered pairs over alphabets of size 2 (|a|<=10,|b|<=12; thorough 11/14) and 3 (7/8; thorough 8/9); B2: a = run-free ramp of every length la<=64, b = junk over two symbols not in a, of every length lb<=64, with a copy of a[oa..oa+m] planted at ob for EVERY (oa, ob) and m in {5,6,7,8} (m<7 are near-misses); B3: all pairs of two-run and periodic strings (repeated, overlapping occurrences).  Oracle: naive scan.  A strided subset also goes through FuzzyHashCompareTarget (block_hash_1/2 accessors and is_comparison_candidate at equal, half and double block size).  Non-trivial = both strings have at least 7 symbols.",
+    );
+    rep
+}
